@@ -57,7 +57,14 @@ package tbs
 //@ loop 1 invariant isDuplicateAssert <==> (exists k string :: Visited(k) && DupKey(methodCallMap, k))
 //@ loop 1 invariant *results == old(*results)
 
+// a call of the test method to a helper of its own class contributes all the calls of that helper, each helper's in turn
+//@ spec HelperLen(c core_domain.CodeCall, clz core_domain.CodeDataStruct, m map[string]core_domain.CodeFunction) int :=
+//@    (c.NodeName == clz.NodeName && m[CallFull(c)].Name != "") ? len(m[CallFull(c)].FunctionCalls) : 0
+//@ spec rec HelperCalls(cs []core_domain.CodeCall, clz core_domain.CodeDataStruct, m map[string]core_domain.CodeFunction, n int) int := n <= 0 ? 0 : HelperCalls(cs, clz, m, n - 1) + HelperLen(cs[n - 1], clz, m)
+
 //@ func updateMethodCallsForSelfCall
+//@ ensures len(result) == len(method.FunctionCalls) + HelperCalls(method.FunctionCalls, clz, callMethodMap, len(method.FunctionCalls))
+//@ loop 1 invariant len(currentMethodCalls) == len(method.FunctionCalls) + HelperCalls(method.FunctionCalls, clz, callMethodMap, #i)
 //@ ensures len(result) >= len(method.FunctionCalls)
 //@ ensures forall i int :: {result[i]} 0 <= i && i < len(method.FunctionCalls) ==> result[i] == method.FunctionCalls[i]
 //@ loop 1 invariant len(currentMethodCalls) >= len(method.FunctionCalls)
